@@ -36,7 +36,9 @@ fn safe_char(rng: &mut Rng) -> u8 {
 }
 
 fn stdin_line(rng: &mut Rng) -> Vec<u8> {
-    let n = match rng.below(8) {
+    let n = match rng.below(9) {
+        // far beyond any line buffer: the next read must still start at the next line
+        8 => *rng.pick(&[4095usize, 4096, 4097, 8191, 8192, 8193, 70000]),
         0 => 0,
         1 => 1,
         2 => 2,
